@@ -211,7 +211,11 @@ def rule_file_grammar(rep: Report, repo: Repo, rule: str) -> None:
     # listener callbacks
     lm = listener_model(repo)
     ci = repo.cls(lm.cls)
-    cbs = sorted(n for n in ci.methods if n.startswith("enter") or n.startswith("exit") or n.startswith("visit"))
+    try:
+        family = [k for k in repo.mro(ci.name) if k.module == ci.module]      # hand-written base classes count too
+    except Exception:
+        family = [ci]
+    cbs = sorted({n for k in family for n in k.methods if n.startswith("enter") or n.startswith("exit") or n.startswith("visit")})
     exp = sorted(["enterBracket_doccomment", "enterCommand_invocation", "enterDocumented_command", "enterDocumented_module"])
     rep.check(cbs == exp, rule, f"cminx.aggregator:{lm.cls}", f"callbacks {cbs}",
               f"the listener overrides {cbs}; the effect table models exactly {exp} (an extra callback can add or change entries)")
